@@ -51,6 +51,8 @@ STD_VARIANTS = {
     "std::option::Option": ["None", "Some"], "core::option::Option": ["None", "Some"],
     "std::result::Result": ["Ok", "Err"], "core::result::Result": ["Ok", "Err"],
     "std::cmp::Ordering": None,
+    "std::ops::ControlFlow": ["Continue", "Break"], "core::ops::ControlFlow": ["Continue", "Break"],
+    "std::ops::control_flow::ControlFlow": ["Continue", "Break"], "core::ops::control_flow::ControlFlow": ["Continue", "Break"],
 }
 
 
@@ -169,6 +171,13 @@ class Esp:
                         for x, y in ((rv["a"], rv["b"]), (rv["b"], rv["a"])):
                             if op_local(x) is not None and "int" in y:
                                 stack.append(op_local(x))
+                elif kind == "call":
+                    # the ControlFlow of `flag?`: track the Option / Result it was made from
+                    c = body.call_at(pt[0]) if hasattr(body, "call_at") else None
+                    if c is not None and c.callee and c.callee.get("def", "").endswith("Try::branch") and c.args:
+                        r = op_local(c.args[0])
+                        if r is not None:
+                            stack.append(r)
         return out
 
     def int_source(self, l):
@@ -435,6 +444,17 @@ class Esp:
                                 env2[dl] = sv
                                 self.flags.add(dl)
                             env2[src] = ("variant", sv[1], "None") if len(sv) == 3 else sv
+                    if c.callee and c.callee.get("def", "").endswith("Try::branch") and c.args and dl is not None:
+                        # `opt?` / `res?`: Continue on Some / Ok, Break on None / Err
+                        from .facts import op_root as _root
+                        src = _root(c.args[0])
+                        sv = env2.get(src) if src is not None else None
+                        if sv and sv[0] == "variant" and len(sv) == 3 and sv[2] in ("None", "Some", "Ok", "Err"):
+                            head = body.ty(dl).get("head", "")
+                            if "ControlFlow" in head:
+                                env2 = dict(env2)
+                                env2[dl] = ("variant", head, "Continue" if sv[2] in ("Some", "Ok") else "Break")
+                                self.flags.add(dl)
                     for ts2 in spec.on_call(pt, c, ts, env):
                         if t["target"] is not None:
                             self._merge(Point(t["target"], 0), ts2, env2, dq)
